@@ -5,17 +5,18 @@ The `checks` part (which rule keys fire) is filled by running the property's che
 (git apply … ; ./check ; git checkout -- .)."""
 import json, os, re, shutil, subprocess, sys
 pid, v, title, needs, initially, note = sys.argv[1:7]
-src = "/tmp/seeded-out/%s" % pid
+src = "%s/%s" % (os.environ.get("SEED_OUT", "/tmp/seeded-out"), pid)
+PFX = os.environ.get("SEED_PREFIX", "seeded")
 dst = "/verif/seeded/%s%s" % (pid, v)
 os.makedirs(dst, exist_ok=True)
 shutil.copy(src + "/%s.patch" % v, dst + "/patch.diff")
-demo = "seeded_%s_%s.rs" % (pid, v)
+demo = "%s_%s_%s.rs" % (PFX, pid, v)
 shutil.copy(src + "/" + demo, dst + "/" + demo)
 conf = open(src + "/confirm_%s.txt" % v).read()
 # the agent's own notes for this variant
 notes = open(src + "/notes.md").read()
 parts = re.split(r"\n(?=## )", notes)
-mine = [p for p in parts if re.match(r"## Variant %s\b" % v.upper(), p)]
+mine = [p for p in parts if re.match(r"## Variant %s\b" % v, p, re.I)]
 open(dst + "/notes.md", "w").write((mine[0] if mine else notes) + "\n")
 # run the checks
 props = [pid] + [p for p in sys.argv[7:]]
